@@ -23,131 +23,6 @@ def plscfClasses : List String := ["pLSCF", "pLSCF_MS"]
 def efddFit : List (String × Val) :=
   [("DF1", .float 1 10), ("DF2", .float 1 1), ("cm", .int 1), ("MAClim", .float 17 20), ("sppk", .int 3), ("npmax", .int 20)]
 
-/-- **C07 defaults.** `DF1 = 0.1, DF2 = 1.0, cm = 1, MAClim = 0.85, sppk = 3, npmax = 20` are the defaults of
-    `mpe` AND of `mpe_from_plot` as seen from EFDD, FSDD and EFDD_MS, of the function `fdd.EFDD_mpe`, and of the fields
-    of the run-parameter class of each of the three classes — class = function = run parameters; the bell routine
-    `fdd.SDOF_bellandMS` has the same `cm`, `MAClim` and its band default is `DF2`'s.  Both `mpe` signatures take
-    nothing else besides the request (`sel_freq`) resp. the plot limits (`freqlim`, default None). -/
-theorem C07_defaults :
-    methodDefaults efddClasses "mpe" efddFit = true
-    ∧ methodDefaults efddClasses "mpe_from_plot" (efddFit ++ [("freqlim", .none)]) = true
-    ∧ funcDefaults "fdd.EFDD_mpe" efddFit = true
-    ∧ rpDefaults efddClasses (efddFit ++ [("sel_freq", .none)]) = true
-    ∧ funcDefaults "fdd.SDOF_bellandMS" [("cm", .int 1), ("MAClim", .float 17 20), ("DF", .float 1 1)] = true
-    ∧ funcDefault "fdd.SDOF_bellandMS" "DF" = funcDefault "fdd.EFDD_mpe" "DF2"
-    ∧ efddClasses.all (fun c => methodSig c "mpe" == some ["sel_freq", "DF1", "DF2", "cm", "MAClim", "sppk", "npmax"]
-        && methodDefault c "mpe" "sel_freq" == some .required) = true
-    ∧ efddClasses.all (fun c => (methodSig c "mpe_from_plot").map (sameSet ["DF1", "DF2", "cm", "MAClim", "sppk", "npmax", "freqlim"])
-        == some true) = true := by
-  decide
-
-/-- **C06 defaults.** the half-width of the search band is `DF = 0.1` in `FDD.mpe`, `FDD.mpe_from_plot` (seen from FDD
-    and FDD_MS), in `fdd.FDD_mpe` and in the `DF` field of their run parameters. -/
-theorem C06_defaults :
-    methodDefaults fddClasses "mpe" [("DF", .float 1 10), ("sel_freq", .required)] = true
-    ∧ methodDefaults fddClasses "mpe_from_plot" [("DF", .float 1 10), ("freqlim", .none)] = true
-    ∧ funcDefaults "fdd.FDD_mpe" [("DF", .float 1 10)] = true
-    ∧ funcDefaulted "fdd.FDD_mpe" = ["DF"]
-    ∧ rpDefaults fddClasses [("DF", .float 1 10), ("sel_freq", .none)] = true := by
-  decide
-
-/-- **C11 defaults, SSI.** Seen from all four SSI classes: `mpe(sel_freq, order="find_min", rtol=0.05)` — the same
-    `rtol` as `ssi.SSI_mpe` and as the run parameters (`order_in = "find_min"`, `rtol = 0.05`); `mpe_from_plot` has its
-    own tolerance `rtol = 0.01`.  The routine itself requires the order and defaults labels and covariances to None. -/
-theorem C11_defaults_ssi :
-    methodDefaults ssiClasses "mpe" [("sel_freq", .required), ("order", .str "find_min"), ("rtol", .float 1 20)] = true
-    ∧ methodDefaults ssiClasses "mpe_from_plot" [("freqlim", .none), ("rtol", .float 1 100)] = true
-    ∧ funcDefaults "ssi.SSI_mpe" [("order", .required), ("Lab", .none), ("rtol", .float 1 20),
-        ("Fn_cov", .none), ("Xi_cov", .none), ("Phi_cov", .none)] = true
-    ∧ rpDefaults ssiClasses [("order_in", .str "find_min"), ("rtol", .float 1 20), ("sel_freq", .none)] = true := by
-  decide
-
-/-- **C11 defaults, pLSCF.** Seen from pLSCF and pLSCF_MS: `mpe(sel_freq, order="find_min", rtol=0.05)`,
-    `mpe_from_plot(freqlim=None, rtol=0.05)`, run parameters `order_in = "find_min"`, `rtol = 0.05`.  The routine's own
-    defaults are `order="find_min"`, `Lab=None`, `deltaf=0.05`, `rtol=0.01`; neither class method passes `deltaf`, so
-    the aggregation band of an extraction through the classes is always the routine's `0.05`. -/
-theorem C11_defaults_plscf :
-    methodDefaults plscfClasses "mpe" [("sel_freq", .required), ("order", .str "find_min"), ("rtol", .float 1 20)] = true
-    ∧ methodDefaults plscfClasses "mpe_from_plot" [("freqlim", .none), ("rtol", .float 1 20)] = true
-    ∧ funcDefaults "plscf.pLSCF_mpe" [("order", .str "find_min"), ("Lab", .none), ("deltaf", .float 1 20), ("rtol", .float 1 100)] = true
-    ∧ rpDefaults plscfClasses [("order_in", .str "find_min"), ("rtol", .float 1 20), ("sel_freq", .none)] = true
-    ∧ arg "pLSCF" "mpe" "plscf.pLSCF_mpe" "deltaf" = none
-    ∧ arg "pLSCF" "mpe_from_plot" "plscf.pLSCF_mpe" "deltaf" = none
-    ∧ allResolve plscfClasses "mpe" "pLSCF" = true ∧ allResolve plscfClasses "mpe_from_plot" "pLSCF" = true := by
-  decide
-
-/-- **C11 / C10 / C20 label literals.** `gen.SC_apply` writes `1` (stable) and `0` into the label table and nothing
-    else; `ssi.SSI_mpe` selects the poles with `Lab == 1`; the diagrams test `== 1` (stable) and `== 0`;
-    `plscf.pLSCF_mpe` selects `Lab == 7` (known finding F6: a value `SC_apply` never writes — as coded).  Every
-    comparison of `Lab` in these functions is an equality with an integer constant. -/
-theorem C11_label_literals :
-    labelStores "gen.SC_apply" = [.int 1, .int 0]
-    ∧ labelInt "ssi.SSI_mpe" = some 1
-    ∧ labelInt "plscf.pLSCF_mpe" = some 7
-    ∧ labelTests "plot.stab_plot" = [.int 1, .int 0] ∧ labelTestsAllEq "plot.stab_plot" = true
-    ∧ labelTests "plot.cluster_plot" = [.int 1, .int 0] ∧ labelTestsAllEq "plot.cluster_plot" = true := by
-  decide
-
-/-- … and the executable extraction models select exactly the label values read from the source: `plscfMpe` is
-    `plscfMpeWith` at the generated literal, and the `find_min` branch of `ssiMpeWith` aggregates the cells whose
-    label is the generated literal of `ssi.SSI_mpe`. -/
-theorem C11_label_literals_model (freq : List Rat) (Fn Xi : Mat NR) (Phi : Ten3 (Option CQ)) (order : MpeOrder)
-    (Lab : Option (Mat Int)) (deltaf rtol : Rat) :
-    plscfMpe freq Fn Xi Phi order Lab deltaf rtol
-      = plscfMpeWith (chkOwn rtol) ((labelInt "plscf.pLSCF_mpe").getD 0) freq Fn Xi Phi order Lab deltaf rtol := by
-  have h : labelInt "plscf.pLSCF_mpe" = some 7 := by decide
-  rw [h]; rfl
-
-theorem C11_label_literals_model_ssi (chk : Rat → NR → Bool) (freq : List Rat) (Fn Xi : Mat NR) (Phi : Ten3 (Option CQ))
-    (L : Mat Int) (rtol : Rat) (cov : Option MpeCov) :
-    ssiMpeWith chk freq Fn Xi Phi .findMin (some L) rtol cov
-      = (let agg := aggClosed Fn L ((labelInt "ssi.SSI_mpe").getD 0) freq rtol
-         match firstSome (ssiQual agg freq rtol) agg.c 0 with
-         | none => pure ⟨{}, .none⟩
-         | some (i, u) =>
-           match pickLoop agg Xi Phi cov i u { fn := u.map some } with
-           | .error e => .error e
-           | .ok acc => pure ⟨acc, .int i⟩) := by
-  have h : labelInt "ssi.SSI_mpe" = some 1 := by decide
-  rw [h]; rfl
-
-/-- **C20 defaults.** `plot_stab(freqlim=None, hide_poles=True)` and `plot_cluster(freqlim=None, hide_poles=True)` as
-    seen from all six pole-table classes; the functions behind them: `stab_plot(…, ordmin=0, freqlim=None,
-    hide_poles=True, fig=None, ax=None, Fn_cov=None)`, `cluster_plot(…, ordmin=0, freqlim=None, hide_poles=True)`;
-    `plot_CMIF(freqlim=None, nSv="all")` as seen from the five FDD classes and `CMIF_plot(…, freqlim=None, nSv="all")`. -/
-theorem C20_plot_defaults :
-    methodDefaults (ssiClasses ++ plscfClasses) "plot_stab" [("freqlim", .none), ("hide_poles", .bool true)] = true
-    ∧ methodDefaults (ssiClasses ++ plscfClasses) "plot_cluster" [("freqlim", .none), ("hide_poles", .bool true)] = true
-    ∧ funcDefaults "plot.stab_plot" [("Fn", .required), ("Lab", .required), ("step", .required), ("ordmax", .required),
-        ("ordmin", .int 0), ("freqlim", .none), ("hide_poles", .bool true), ("fig", .none), ("ax", .none), ("Fn_cov", .none)] = true
-    ∧ funcDefaults "plot.cluster_plot" [("Fn", .required), ("Xi", .required), ("Lab", .required),
-        ("ordmin", .int 0), ("freqlim", .none), ("hide_poles", .bool true)] = true
-    ∧ methodDefaults (fddClasses ++ efddClasses) "plot_CMIF" [("freqlim", .none), ("nSv", .str "all")] = true
-    ∧ funcDefaults "plot.CMIF_plot" [("S_val", .required), ("freq", .required), ("freqlim", .none), ("nSv", .str "all"),
-        ("fig", .none), ("ax", .none)] = true := by
-  decide
-
-/-- **C12 / C01 / C17 run-parameter defaults of the SSI classes.** `br` is required; `method = None` (so that
-    `self.run_params.method or self.method` falls through to the class attribute, see `WiringClass`), `ref_ind = None`
-    (all channels are references), `ordmin = 0`, `ordmax = None`, `step = 1`, `calc_unc = False`, `nb = 100`; the class
-    body of `SSIRunParams` holds fields only (no validator that could rewrite a value).  The library functions agree:
-    `build_hank(calc_unc=False, nb=100)` with `method` required, `SSI_fast(step=1, calc_unc=False, T=None, nb=100)`,
-    `SSI(step=1)`, `SSI_poles(step=1, calc_unc=False, Q1..Q4=None)`, `SSI_multi_setup(step=1)`, `ac2mp(calc_unc=False)`. -/
-theorem C12_runparams_defaults :
-    rpDefaults ssiClasses [("br", .required), ("method", .none), ("ref_ind", .none), ("ordmin", .int 0), ("ordmax", .none),
-        ("step", .int 1), ("calc_unc", .bool false), ("nb", .int 100)] = true
-    ∧ ssiClasses.all (fun c => runParamCls c == some "SSIRunParams") = true
-    ∧ extrasOf "SSIRunParams" = []
-    ∧ funcDefaults "ssi.build_hank" [("Y", .required), ("Yref", .required), ("br", .required), ("method", .required),
-        ("calc_unc", .bool false), ("nb", .int 100)] = true
-    ∧ funcDefaults "ssi.SSI_fast" [("step", .int 1), ("calc_unc", .bool false), ("T", .none), ("nb", .int 100)] = true
-    ∧ funcDefaults "ssi.SSI" [("step", .int 1)] = true
-    ∧ funcDefaults "ssi.SSI_poles" [("dt", .required), ("step", .int 1), ("calc_unc", .bool false),
-        ("Q1", .none), ("Q2", .none), ("Q3", .none), ("Q4", .none)] = true
-    ∧ funcDefaults "ssi.SSI_multi_setup" [("method_hank", .required), ("step", .int 1)] = true
-    ∧ funcDefaults "ssi.ac2mp" [("dt", .required), ("calc_unc", .bool false)] = true := by
-  decide
-
 /-- the hard criteria a run applies when the user gives none -/
 def hcSsi : List (String × Val) :=
   [("hc", .keys ["conj", "xi_max", "mpc_lim", "mpd_lim", "cov_max"]), ("hc.conj", .bool true), ("hc.xi_max", .float 1 10),
@@ -156,35 +31,5 @@ def hcSsi : List (String × Val) :=
 def hcPlscf : List (String × Val) :=
   [("hc", .keys ["conj", "xi_max", "mpc_lim", "mpd_lim"]), ("hc.conj", .bool true), ("hc.xi_max", .float 1 10),
    ("hc.mpc_lim", .float 7 10), ("hc.mpd_lim", .float 3 10)]
-
-/-- **C09 defaults.** the default hard criteria: conjugate test on, `xi_max = 0.1`, `mpc_lim = 0.7`, `mpd_lim = 0.3`
-    and (SSI only: the key exists only there) `cov_max = 0.2` — exactly these keys, for each of the six classes. -/
-theorem C09_hc_defaults :
-    rpDefaults ssiClasses hcSsi = true ∧ rpDefaults plscfClasses hcPlscf = true
-    ∧ plscfClasses.all (fun c => runParamCls c == some "pLSCFRunParams") = true
-    ∧ extrasOf "pLSCFRunParams" = [] := by
-  decide
-
-/-- **C10 defaults.** the default soft criteria `err_fn = 0.01, err_xi = 0.05, err_phi = 0.03` (exactly these keys) and
-    `ordmin = 0` for each of the six classes. -/
-theorem C10_sc_defaults :
-    rpDefaults (ssiClasses ++ plscfClasses)
-      [("sc", .keys ["err_fn", "err_xi", "err_phi"]), ("sc.err_fn", .float 1 100), ("sc.err_xi", .float 1 20),
-       ("sc.err_phi", .float 3 100), ("ordmin", .int 0)] = true
-    ∧ rpDefaults plscfClasses [("ordmax", .required)] = true := by
-  decide
-
-/-- **C13 / C04 / C05 spectral defaults.** `nxseg = 1024, method_SD = "per", pov = 0.5` for every class that estimates
-    spectra (FDD, EFDD, FSDD, FDD_MS, EFDD_MS, pLSCF, pLSCF_MS) and for `fdd.SD_PreGER`; the estimator `fdd.SD_est` itself
-    defaults to the correlogram (`method="cor"`; every class passes the method explicitly, `C13_run_spectral`).
-    `plscf.pLSCF(sgn_basf=-1.0)`: the sign the periodogram convention needs. -/
-theorem C13_defaults :
-    rpDefaults (fddClasses ++ efddClasses ++ plscfClasses) [("nxseg", .int 1024), ("method_SD", .str "per"), ("pov", .float 1 2)] = true
-    ∧ funcDefaults "fdd.SD_PreGER" [("Y", .required), ("fs", .required), ("nxseg", .int 1024), ("pov", .float 1 2), ("method", .str "per")] = true
-    ∧ funcDefaults "fdd.SD_est" [("Yall", .required), ("Yref", .required), ("dt", .required), ("nxseg", .int 1024),
-        ("method", .str "cor"), ("pov", .float 1 2)] = true
-    ∧ funcDefaults "plscf.pLSCF" [("Sy", .required), ("dt", .required), ("ordmax", .required), ("sgn_basf", .float (-1) 1)] = true
-    ∧ extrasOf "FDDRunParams" = [] ∧ extrasOf "EFDDRunParams" = [] := by
-  decide
 
 end PV.WiringDefaults
